@@ -3,15 +3,15 @@
 wt=$1; jobs=${2:-5}
 cd /verif
 for j in $(seq 1 $jobs); do
-  git -C /repo worktree add --detach /tmp/sw$j HEAD -q 2>/dev/null
+  git -C /repo worktree add --detach ${SW:-/tmp/sw}$j HEAD -q 2>/dev/null
   (
     for c in $(seq -f "C%02g" 1 20 | awk -v j=$j -v n=$jobs 'NR % n == j % n'); do
-      git -C /tmp/sw$j checkout -q -- . ; git -C /tmp/sw$j apply $wt/$c.patch || { echo "== $c: patch does not apply"; continue; }
-      out=$(NUMBA_NUM_THREADS=3 PYTHONPATH=/tmp/sw$j timeout 3000 tools/cases_only.py $c quick 2>&1 | grep -v conda | grep "^$c \|^VIOL\|^TIE\|^KNOWN" | cut -c1-260)
-      git -C /tmp/sw$j checkout -q -- .
+      git -C ${SW:-/tmp/sw}$j checkout -q -- . ; git -C ${SW:-/tmp/sw}$j apply $wt/$c.patch || { echo "== $c: patch does not apply"; continue; }
+      out=$(NUMBA_NUM_THREADS=3 PYTHONPATH=${SW:-/tmp/sw}$j timeout 3000 tools/cases_only.py $c quick 2>&1 | grep -v conda | grep "^$c \|^VIOL\|^TIE\|^KNOWN" | cut -c1-260)
+      git -C ${SW:-/tmp/sw}$j checkout -q -- .
       echo "== $c: $(echo "$out" | head -1 | sed 's/drift=.*//') :: $(echo "$out" | grep "^VIOL\|^TIE" | head -1 | cut -c1-150)"
     done
   ) &
 done
 wait
-for j in $(seq 1 $jobs); do git -C /repo worktree remove --force /tmp/sw$j; done; git -C /repo worktree prune
+for j in $(seq 1 $jobs); do git -C /repo worktree remove --force ${SW:-/tmp/sw}$j; done; git -C /repo worktree prune
